@@ -83,6 +83,11 @@ impl InlineCache {
 
         // A prototype slot is described relative to the prototype's current layout.
         let prototype_shape = if slot.attributes.contains(SlotAttributes::PROTOTYPE) {
+            // A unique (dictionary-mode) shape keeps its identity when a property is added, so an
+            // own property that starts to shadow the prototype's would go unnoticed.
+            if shape.is_unique() {
+                return;
+            }
             let Some(prototype) = shape.prototype() else {
                 return;
             };
